@@ -177,8 +177,7 @@ structure ECand (α : Type) where
   /-- every `VehicleRestriction` of the edge is `valid` for the query's vehicle (true when either is absent) -/
   vehOk : Bool
   /-- great-circle metres from the query coordinate to the centroid (real `haversine`, `none` when it
-  refuses the coordinate).  NOT read by the code: it is here so that the property's tolerance clause can be
-  stated, and for the day `within_tolerance` is given a distance in metres. -/
+  refuses the coordinate or the linestring is empty); read by `within_tolerance` -/
   gc : Option α
   deriving Repr, Inhabited
 
@@ -225,12 +224,15 @@ def readRoadClasses (mapping : List (String × Nat)) (q : Json) : Except Err (Op
 section
 variable {α : Type} [Mul α] [Div α] [Lit α] [LE α] [DecidableLE α]
 
-/-- `within_tolerance`: the tolerance is converted to METRES, narrowed to `f32` (`r32`), and compared with
-the value the iterator yields — which is `distance_2`, squared coordinate DEGREES, whatever its name says -/
-def withinTolerance (r32 : α → α) (tol : Option (α × DistanceUnit)) (d2 : α) : Bool :=
+/-- `within_tolerance`: the great-circle distance from the coordinate to the edge's centroid, converted
+INTO the tolerance's unit, compared with `<=`; an error when `haversine` refuses the coordinate -/
+def withinTolerance (tol : Option (α × DistanceUnit)) (c : ECand α) : Except Err Bool :=
   match tol with
-  | none => true
-  | some (t, u) => decide (d2 ≤ r32 (u.convert DistanceUnit.meters t))
+  | none => .ok true
+  | some (t, u) =>
+    match c.gc with
+    | none => .error .distanceRange
+    | some g => .ok (decide (DistanceUnit.meters.convert u g ≤ t))
 
 /-- the road-class part of `search` -/
 def validClass (classes : Option (List Nat)) (hasLookup : Bool) (c : ECand α) : Except Err Bool :=
@@ -241,28 +243,31 @@ def validClass (classes : Option (List Nat)) (hasLookup : Bool) (c : ECand α) :
     | some k => .ok (cs.contains k)
   | _, _ => .ok true
 
-/-- `search`: nearest first; the first candidate beyond tolerance ends the search; the first candidate
-that passes both filters is the match -/
-def searchEdge (r32 : α → α) (tol : Option (α × DistanceUnit)) (classes : Option (List Nat)) (hasLookup : Bool) :
+/-- `search`: nearest first; the first candidate that passes both filters is the nearest admissible edge:
+it is the match if it lies within the tolerance, otherwise there is no match -/
+def searchEdge (tol : Option (α × DistanceUnit)) (classes : Option (List Nat)) (hasLookup : Bool) :
     List (ECand α) → Except Err (Option Nat)
   | [] => .ok none
   | c :: rest =>
-    if withinTolerance r32 tol c.d2 then
-      match validClass classes hasLookup c with
-      | .error e => .error e
-      | .ok vc => if vc && c.vehOk then .ok (some c.id) else searchEdge r32 tol classes hasLookup rest
-    else .ok none
+    match validClass classes hasLookup c with
+    | .error e => .error e
+    | .ok vc =>
+      if vc && c.vehOk then
+        match withinTolerance tol c with
+        | .error e => .error e
+        | .ok w => if w then .ok (some c.id) else .ok none
+      else searchEdge tol classes hasLookup rest
 
 /-- `search(..)?.ok_or_else(matching_error)` -/
-def searchEdge! (r32 : α → α) (tol : Option (α × DistanceUnit)) (classes : Option (List Nat)) (hasLookup : Bool)
+def searchEdge! (tol : Option (α × DistanceUnit)) (classes : Option (List Nat)) (hasLookup : Bool)
     (cands : List (ECand α)) : Except Err Nat :=
-  match searchEdge r32 tol classes hasLookup cands with
+  match searchEdge tol classes hasLookup cands with
   | .error e => .error e
   | .ok none => .error .noEdgeMatch
   | .ok (some id) => .ok id
 
 /-- `EdgeRtreeInputPlugin::process`: both searches come first, then the writes -/
-def edgeProcess (r32 : α → α) (tol : Option (α × DistanceUnit)) (mapping : List (String × Nat)) (hasLookup : Bool)
+def edgeProcess (tol : Option (α × DistanceUnit)) (mapping : List (String × Nat)) (hasLookup : Bool)
     (q : Json) (oc dc : List (ECand α)) : Outcome :=
   match readRoadClasses mapping q with
   | .error e => ⟨some e, q⟩
@@ -273,11 +278,11 @@ def edgeProcess (r32 : α → α) (tol : Option (α × DistanceUnit)) (mapping :
       match destinationCoordinate q with
       | .error e => ⟨some e, q⟩
       | .ok hasDst =>
-        match searchEdge! r32 tol classes hasLookup oc with
+        match searchEdge! tol classes hasLookup oc with
         | .error e => ⟨some e, q⟩
         | .ok eo =>
           if hasDst then
-            match searchEdge! r32 tol classes hasLookup dc with
+            match searchEdge! tol classes hasLookup dc with
             | .error e => ⟨some e, q⟩
             | .ok ed =>
               match addField q .originEdge eo with
